@@ -67,12 +67,20 @@ def write_cfg_module(init, workdir):
         f.write("=============================================================================\n")
 
 
+HD_SETS = ["InputOutputHandler.input_handler=random_input_handler", "RandomInputHandler.random_node_creator=dipole_random_node_creator",
+           "DipoleRandomNodeCreator.min_initial_dipole_separation=0.96", "DipoleRandomNodeCreator.max_initial_dipole_separation=1.04",
+           "DipoleRandomNodeCreator.charge_values=electric_charge_values (charge_values)", "RandomInputHandler.number_of_root_nodes=2"]
+# the two configurations whose .pdb input needs MDAnalysis: same tagger graph, random dipoles instead of the .pdb file
+PDB_CONFIGS = {"config_files/hard_disk_dipoles/hard_disk_dipoles.ini": HD_SETS,
+               "config_files/hard_disk_dipoles/hard_disk_dipoles_cells.ini": HD_SETS}
+
+
 def design_for(chk, sc, pid, configs=None):
     """Run the per-configuration design check and report the clauses of property pid."""
     import re
     quick = chk.tier == "quick"
-    cfgs = configs or runs.SHIPPED
-    out = check_configs(sc, cfgs, timeout=100 if quick else 1500)
+    cfgs = list(configs or runs.SHIPPED) + [c for c in PDB_CONFIGS if configs is None or "cells" in c]
+    out = check_configs(sc, cfgs, sets=PDB_CONFIGS, timeout=100 if quick else 1500)
     partial = []
     for name, res, err in out:
         if res is None:
